@@ -75,6 +75,10 @@ class Heap:
     def mprotect(s, it, a):
         p, ln, prot = a[0], a[1], a[2]
         if not isinstance(p, Ptr) or p.obj not in s.live: s.problems.append('mprotect of %s which is not a live mapping' % (p,)); return -1
+        if getattr(s, 'mprotect_may_fail', False) and not getattr(s, 'mprotect_failed', False):
+            s.n += 1
+            if s.it.decide(z3.BitVec('fail_mprotect_%d' % s.n, 1)):
+                s.mprotect_failed = True; s.protlog.append(('mprotect(FAILED)', p.obj, ln, s.prot[p.obj])); s.log.append('mprotect:FAIL'); return (1 << 32) - 1
         s.prot[p.obj] = prot; s.protlog.append(('mprotect', p.obj, ln, prot)); s.log.append('mprotect(%s,%s)' % (ln, prot)); return 0
 
 def fake_cache(it, mod, name='the_cache', key=b'', prog_size=1):
@@ -97,8 +101,10 @@ def fake_cache(it, mod, name='the_cache', key=b'', prog_size=1):
 
 def run_ctors(it, mod):
     """dynamic initialisers of the linked units (sizes of the assembly templates etc.)"""
+    it.asm_zero = True          # cpuid results during static initialisation are irrelevant to the lemmas of this module: fixed, not forked
     for f in mod.funcs:
         if f.startswith('_GLOBAL__sub_I_'): it.call(f, [])
+    it.asm_zero = False
 
 def bind_templates(it, ctx):
     """the hand-written template symbols of jit_compiler_x86_static.S as pointers into one 'text' object holding the assembled bytes"""
@@ -176,3 +182,81 @@ LEMMAS = {
                stubs=['operator new/delete, posix_memalign/free, mmap/munmap/mprotect := ghost heap with nondeterministic failure', 'exception constructors := no-ops', 'static initialisers run fault-free'],
                outside='failures inside libstdc++ beyond operator new; hashing after a failed call (fresh objects are independent: H3)'),
 }
+
+# ---------------------------------------------------------------------------------------------- H7 (C16)
+def run_H7(ctx, case):
+    """secure VMs and JIT caches: no W+X protection is ever requested; code is generated only while RW and entered only while RX"""
+    q = Q(30); mod = Module(ctx['ll']['lib']); F = flagvals(); npaths = [0]; seqs = []
+    def one(fk):
+        it = Interp(mod); it.fork = fk; bind_templates(it, ctx)
+        H0 = Heap(it, fail=False); cxxlib.install(it, H0); run_ctors(it, mod)
+        H = Heap(it, fail=False); cxxlib.install(it, H); events = []; H.mprotect_may_fail = True
+        def code_obj(jit):
+            L = resolve(NamedT('class.randomx::JitCompilerX86', mod)).layout()[0]
+            c = it.mem.load(Ptr(jit.obj, jit.off + L[2]), 8); return c.obj if isinstance(c, Ptr) else None
+        def gen(name):
+            def h(s, a): events.append(('generate:' + name, code_obj(a[0]), H.prot.get(code_obj(a[0])))); return None
+            return h
+        for f in mod.funcs:
+            for g in ('generateProgramERNS', 'generateProgramLightERNS', 'generateSuperscalarHashE', 'generateDatasetInitCodeE'):
+                if 'JitCompilerX86' in f and g in f: it.hooks[f] = gen(g.split('E')[0])
+        it.hooks['<indirect>'] = lambda s, fp, a: events.append(('execute', fp.obj, H.prot.get(fp.obj))) and None
+        # per-hash data paths are irrelevant to page protections: havoc stubs
+        for f in list(mod.funcs) + [g for g in mod.globals]:
+            pass
+        for nm in ('_Z11fillAes1Rx4ILb0EEvPvmS0_', '_Z11fillAes1Rx4ILb1EEvPvmS0_', '_Z11fillAes4Rx4ILb0EEvPvmS0_', '_Z11fillAes4Rx4ILb1EEvPvmS0_', '_Z11hashAes1Rx4ILb0EEvPKvmPv', '_Z11hashAes1Rx4ILb1EEvPKvmPv',
+                   '_Z18hashAndFillAes1Rx4ILb0EEvPvmS0_S0_', '_Z18hashAndFillAes1Rx4ILb1EEvPvmS0_S0_', 'randomx_blake2b', 'randomx_argon2_validate_inputs', 'randomx_argon2_initialize', 'randomx_argon2_fill_memory_blocks',
+                   '_ZN7randomx15Blake2GeneratorC1EPKvmi'):
+            it.hooks[nm] = lambda s, a: 0
+        def gensup(s, a):       # generateSuperscalar(prog, gen): any well-formed program; only its size matters here
+            tp = resolve(NamedT('class.randomx::SuperscalarProgram', mod)); po = tp.layout()[0]
+            s.mem.store(Ptr(a[0].obj, a[0].off + po[1]), 1, 4); s.mem.store(Ptr(a[0].obj, a[0].off), 0, 8); return None
+        it.hooks['_ZN7randomx19generateSuperscalarERNS_18SuperscalarProgramERNS_15Blake2GeneratorE'] = gensup
+        what = case['what']; log = []
+        if what == 'vm':
+            flags = z3.BitVec('flags', 32)
+            fk['pc'] += [flags & F['SECURE'] != 0, flags & F['JIT'] != 0, z3.ULT(flags, 256), flags & (F['FULL_MEM'] | F['HARD_AES'] | F['LARGE_PAGES']) == case['cls']]
+            full = it.decide(z3.If(flags & F['FULL_MEM'] != 0, z3.BitVecVal(1, 1), z3.BitVecVal(0, 1)))
+            cache = fake_cache(it, mod); d = it.mem.alloc(16, 'the_dataset'); dm = it.mem.alloc(P.DATASET_BASE + P.DATASET_EXTRA, 'dataset_memory'); it.mem.store(Ptr('the_dataset', 0), dm, 8)
+            vm = it.call('randomx_create_vm', [flags, Ptr(None, 0) if full else cache, d if full else Ptr(None, 0)])
+            if isinstance(vm, Ptr) and vm.obj is None: raise Exception('create_vm returned NULL without faults')
+            seed = it.mem.alloc(64, 'seed'); out = it.mem.alloc(32, 'out'); inp = it.mem.alloc(16, 'inp')
+            it.call('randomx_calculate_hash', [vm, inp, 16, out]); log.append('hash')
+            if not full:
+                c2 = fake_cache(it, mod, 'cache2', key=b'k2'); it.call('randomx_vm_set_cache', [vm, c2]); log.append('set_cache')
+            else:
+                it.call('randomx_vm_set_dataset', [vm, d]); log.append('set_dataset')
+            it.call('randomx_calculate_hash_first', [vm, inp, 16]); it.call('randomx_calculate_hash_next', [vm, inp, 16, out]); it.call('randomx_calculate_hash_last', [vm, out]); log.append('batch')
+            it.call('randomx_destroy_vm', [vm]); log.append('destroy')
+        else:
+            flags = F['JIT'] | case.get('extra', 0)
+            c = it.call('randomx_alloc_cache', [flags])
+            key = it.mem.alloc(8, 'key')
+            for k in range(8): it.mem.store(Ptr('key', k), z3.BitVec('key%d' % k, 8), 1)
+            it.call('randomx_init_cache', [c, key, 4]); log.append('init_cache')
+            ds = it.mem.alloc(16, 'the_dataset'); dm = it.mem.mkarr('dataset_memory', P.DATASET_BASE + P.DATASET_EXTRA); it.mem.store(Ptr('the_dataset', 0), dm, 8)
+            it.call('randomx_init_dataset', [ds, c, 0, 8]); log.append('init_dataset')
+            it.call('randomx_init_cache', [c, key, 5]); log.append('re-key')
+            it.call('randomx_init_dataset', [ds, c, 8, 3]); log.append('init_dataset')
+            it.call('randomx_release_cache', [c]); log.append('release')
+        npaths[0] += 1; tag = '%s %s' % (what, [str(z3.simplify(p_))[:50] for p_ in fk['pc'][3:6]])
+        def chk(c_, msg):
+            q.n += 1; q.unsat += bool(c_); q.sat += (not c_)
+            if not c_: q.failed.append(('%s: %s' % (tag, msg), dict(protections=[(k_, l_, p_) for (k_, o_, l_, p_) in H.protlog][:12])))
+        for (kind, obj, ln, prot) in H.protlog:
+            chk(is_c(prot) and not (prot & PROT_WRITE and prot & PROT_EXEC), '%s requests protection %s (writable and executable) on a code buffer' % (kind, prot))
+        for (ev, obj, prot) in ([] if getattr(H, 'mprotect_failed', False) else events):
+            if ev.startswith('generate'): chk(prot is not None and is_c(prot) and prot & PROT_WRITE and not prot & PROT_EXEC, '%s while the buffer protection is %s (must be RW, not X)' % (ev, prot))
+            else: chk(prot is not None and is_c(prot) and prot & PROT_EXEC and not prot & PROT_WRITE, 'generated code entered while the buffer protection is %s (must be RX)' % prot)
+        chk(any(e[0] == 'execute' for e in events), 'harness reached code execution (vacuity witness)')
+        chk(not H.live, 'objects left after destroy/release: %s' % list(H.live)[:3])
+        seqs.append((log, [(e[0], e[2]) for e in events][:8]))
+    res, nq = explore(one, limit=600); q.n += nq
+    return result('H7', str(case), q, paths=npaths[0], detail='%d flag classes; e.g. %s' % (npaths[0], seqs[:1]))
+
+LEMMAS['H7'] = dict(jobs=lambda ctx: [dict(what='vm', cls=c) for c in (0, 1, 2, 3, 4, 5, 6, 7)] + [dict(what='cache', extra=0), dict(what='cache', extra=1)], run=run_H7, units=['lib'], asm=True,
+    functions=['randomx_create_vm', 'CompiledVm<*,*,true>::CompiledVm/run', 'CompiledLightVm<*,*,true>::setCache/run', 'randomx_vm_set_cache', 'randomx_calculate_hash*', 'randomx_destroy_vm', 'randomx_alloc_cache', 'randomx_init_cache', 'initCacheCompile', 'randomx_init_dataset', 'JitCompilerX86 ctor/dtor/enableWriting/enableExecution/enableAll', 'setPagesRW/RX/RWX', 'allocMemoryPages', 'pageProtect'],
+    doc='for every secure JIT VM class (flag word symbolic, classes enumerated by the solver) and for JIT caches: every protection requested by mmap/mprotect lacks W or lacks X; code generation happens only under RW; generated code is entered only under RX',
+    bound='one VM life: create, hash, re-bind, pipelined batch, destroy; one cache life: alloc, init, dataset init, re-key, dataset init, release; at most one failing mprotect per life (every position)', symbolic='flag word (secure JIT subset), keys',
+    stubs=['mmap/mprotect/munmap := ghost protection state', 'JitCompilerX86::generate* := recorder of the protection at the time of the call', 'call into generated code := recorder', 'AES/Blake/Argon2 data paths := no-ops'],
+    outside='the kernel honouring mprotect; non-Linux branches of virtual_memory.c')
